@@ -42,16 +42,24 @@ type SubEnv interface {
 var SubSelections = []struct {
 	Sel    string
 	Expect func(id int) string
+	// Frag holds fragment definitions the selection refers to (appended to the
+	// subscription document). Two entries deliberately define a fragment of the
+	// same name differently: every subscriber has its own document.
+	Frag string
 }{
-	{"{ id msg }", func(id int) string { return `{"id":` + strconv.Itoa(id) + `,"msg":"m` + strconv.Itoa(id) + `"}` }},
-	{"{ id }", func(id int) string { return `{"id":` + strconv.Itoa(id) + `}` }},
-	{"{ msg tag }", func(id int) string { return `{"msg":"m` + strconv.Itoa(id) + `","tag":"t` + strconv.Itoa(id) + `"}` }},
-	{"{ x: id y: tag }", func(id int) string { return `{"x":` + strconv.Itoa(id) + `,"y":"t` + strconv.Itoa(id) + `"}` }},
+	{"{ id msg }", func(id int) string { return `{"id":` + strconv.Itoa(id) + `,"msg":"m` + strconv.Itoa(id) + `"}` }, ""},
+	{"{ id }", func(id int) string { return `{"id":` + strconv.Itoa(id) + `}` }, ""},
+	{"{ msg tag }", func(id int) string { return `{"msg":"m` + strconv.Itoa(id) + `","tag":"t` + strconv.Itoa(id) + `"}` }, ""},
+	{"{ x: id y: tag }", func(id int) string { return `{"x":` + strconv.Itoa(id) + `,"y":"t` + strconv.Itoa(id) + `"}` }, ""},
 	{"{ id nested { id msg } }", func(id int) string {
 		n := strconv.Itoa(id + 1000)
 		return `{"id":` + strconv.Itoa(id) + `,"nested":{"id":` + n + `,"msg":"m` + n + `"}}`
-	}},
-	{"{ __typename id }", func(id int) string { return `{"__typename":"Event","id":` + strconv.Itoa(id) + `}` }},
+	}, ""},
+	{"{ __typename id }", func(id int) string { return `{"__typename":"Event","id":` + strconv.Itoa(id) + `}` }, ""},
+	{"{ ...F }", func(id int) string { return `{"id":` + strconv.Itoa(id) + `,"msg":"m` + strconv.Itoa(id) + `"}` }, "fragment F on Event { id msg }"},
+	{"{ ...F }", func(id int) string { return `{"tag":"t` + strconv.Itoa(id) + `"}` }, "fragment F on Event { tag }"},
+	{"{ ... on Event { id } ... { tag } }", func(id int) string { return `{"id":` + strconv.Itoa(id) + `,"tag":"t` + strconv.Itoa(id) + `"}` }, ""},
+	{"{ id @skip(if: true) msg @include(if: true) }", func(id int) string { return `{"msg":"m` + strconv.Itoa(id) + `"}` }, ""},
 }
 
 // Event is the reflection flavour of a published event.
@@ -101,9 +109,10 @@ type SimSub struct {
 	// Send fails too (connection dropped), otherwise only that one (transient).
 	FailFrom int
 	Dropped  bool
-	// Alias / Named vary the shape of the subscription request.
-	Alias bool
-	Named bool
+	// Alias / Named / UseVar vary the shape of the subscription request.
+	Alias  bool
+	Named  bool
+	UseVar bool
 
 	env   SubEnv
 	sends int
@@ -239,14 +248,29 @@ func (w *SubWorld) Subscribe(sid int) string {
 	}
 	field := "watch"
 	if s.Alias {
-		field = "w" + strconv.Itoa(sid) + ": watch"
+		field = "w: watch"
 	}
 	op := "subscription"
 	if s.Named {
 		op = "subscription Sub" + strconv.Itoa(sid)
 	}
-	req := op + " { " + field + "(topic: " + topic + ", sid: " + strconv.Itoa(sid) + ") " + SubSelections[s.SelIndex].Sel + " }"
-	return CanonLite(w.Root.ResolveString(req, "", nil))
+	var vars map[string]interface{}
+	sidText := strconv.Itoa(sid)
+	if s.UseVar {
+		// the subscriber is identified through a variable: the subscription fields of
+		// different subscribers are then textually identical
+		if !s.Named {
+			op = "subscription S"
+		}
+		op += "($sid: Int!)"
+		sidText = "$sid"
+		vars = map[string]interface{}{"sid": sid}
+	}
+	req := op + " { " + field + "(topic: " + topic + ", sid: " + sidText + ") " + SubSelections[s.SelIndex].Sel + " }"
+	if f := SubSelections[s.SelIndex].Frag; f != "" {
+		req += "\n" + f
+	}
+	return CanonLite(w.Root.ResolveString(req, "", vars))
 }
 
 // Publish publishes event n on topic.
